@@ -542,3 +542,12 @@ Inductive subseq {A} : list A -> list A -> Prop :=
 | sub_skip x l1 l2 : subseq l1 l2 -> subseq l1 (x :: l2).
 
 Definition is_prefix {A} (p l : list A) : Prop := exists rest, l = p ++ rest.
+
+(* has thread t an operation in flight at the end of this log prefix? *)
+Fixpoint open_from (b : bool) (t : tid) (log : list event) : bool :=
+  match log with
+  | [] => b
+  | EInv u _ :: log' => open_from (if t =? u then true else b) t log'
+  | ERes u _ _ :: log' => open_from (if t =? u then false else b) t log'
+  end.
+Definition open_inv (t : tid) (log : list event) : bool := open_from false t log.
